@@ -160,7 +160,7 @@ func (f *Frame) assumeTypeInv(r Val) {
 		}
 		return
 	}
-	g.assume(implies(f.curReach, g.typeInv(r, f.alloc())))
+	g.assumeDef(r.S, implies(f.curReach, g.typeInv(r, f.alloc())))
 }
 
 func (f *Frame) closureCall(cf *ssa.Function, bindings []Val, args []Val, in ssa.Instruction, rt types.Type) Val {
@@ -306,6 +306,17 @@ func (f *Frame) applyContract(fn *ssa.Function, fc *FuncContract, args []Val, in
 	f.cur = pre.havoc(ms, fn.Name())
 	res := g.havocVal("res_"+fn.Name(), rt)
 	f.assumeTypeInv(res)
+	defs := ""
+	if res.Sort == "Tuple" {
+		for _, t := range res.Tuple {
+			defs += " " + t.S
+		}
+	} else if res.S != "" {
+		defs = res.S
+	}
+	if ep := f.cur.havocEpoch(); ep != "" {
+		defs += " *@" + ep
+	}
 	var results []Val
 	if res.Sort == "Tuple" {
 		results = res.Tuple
@@ -326,7 +337,7 @@ func (f *Frame) applyContract(fn *ssa.Function, fc *FuncContract, args []Val, in
 		if c.Kind != "ensures" {
 			continue
 		}
-		g.assume(implies(f.curReach, envPost.trBool(c.E)))
+		g.assumeDef(defs, implies(f.curReach, envPost.trBool(c.E)))
 	}
 	if fc.Trusted {
 		g.Assumptions["trusted contract (body not verified): "+name] = true
@@ -414,18 +425,18 @@ func (f *Frame) appendCall(c *ssa.CallCommon, args []Val, in ssa.Instruction) Va
 		tlen = app("s_len", t.S)
 	}
 	newLen := g.freshConst("applen", g.idxSort())
-	g.assume(eq(newLen, g.iadd(app("s_len", s.S), tlen)))
+	g.assumeDef(newLen, eq(newLen, g.iadd(app("s_len", s.S), tlen)))
 	newCap := g.freshConst("appcap", g.idxSort())
-	g.assume(g.icmp("<=", newLen, newCap, true))
+	g.assumeDef(newCap, g.icmp("<=", newLen, newCap, true))
 	if g.BV {
-		g.assume(app("bvsle", newCap, "(_ bv4611686018427387904 64)"))
-		g.assume(app("bvsge", newLen, app("s_len", s.S))) // lengths do not wrap (memory is finite)
+		g.assumeDef(newCap, app("bvsle", newCap, "(_ bv4611686018427387904 64)"))
+		g.assumeDef(newLen, app("bvsge", newLen, app("s_len", s.S))) // lengths do not wrap (memory is finite)
 	} else {
-		g.assume(app("<=", newCap, "4611686018427387904"))
+		g.assumeDef(newCap, app("<=", newCap, "4611686018427387904"))
 	}
 	p := f.newObjID()
 	pn := g.freshConst("append", "Ptr")
-	g.assume(eq(pn, p))
+	g.assumeDef(pn, eq(pn, p))
 	res := Val{S: app("mk-slice", pn, g.idxLit(0), newLen, newCap), Sort: "Slice", GT: s.GT}
 	if !isLeafElem(et) {
 		g.note("append on a slice of structs/arrays: element contents are not modelled")
@@ -442,7 +453,7 @@ func (f *Frame) appendCall(c *ssa.CallCommon, args []Val, in ssa.Instruction) Va
 	ix := g.idxSort()
 	arr := g.freshConst("apparr", fmt.Sprintf("(Array %s %s)", ix, es))
 	olds := app("select", e, app("s_arr", s.S))
-	g.assume(fmt.Sprintf("(forall ((i %s)) (! (=> (and %s %s) (= (select %s i) (select %s %s))) :pattern ((select %s i))))", ix,
+	g.assumeDef(arr, fmt.Sprintf("(forall ((i %s)) (! (=> (and %s %s) (= (select %s i) (select %s %s))) :pattern ((select %s i))))", ix,
 		g.icmp("<=", g.idxLit(0), "i", true), g.icmp("<", "i", app("s_len", s.S), true), arr, olds, g.iadd(app("s_off", s.S), "i"), arr))
 	// appended part: expand small constant-length literal tails, otherwise quantify
 	n := constSliceLen(c.Args[1])
@@ -454,10 +465,10 @@ func (f *Frame) appendCall(c *ssa.CallCommon, args []Val, in ssa.Instruction) Va
 	}
 	if n >= 0 && n <= 8 {
 		for j := 0; j < n; j++ {
-			g.assume(eq(app("select", arr, g.iadd(app("s_len", s.S), g.idxLit(int64(j)))), elemAt(g.idxLit(int64(j)))))
+			g.assumeDef(arr, eq(app("select", arr, g.iadd(app("s_len", s.S), g.idxLit(int64(j)))), elemAt(g.idxLit(int64(j)))))
 		}
 	} else {
-		g.assume(fmt.Sprintf("(forall ((j %s)) (! (=> (and %s %s) (= (select %s %s) %s)) :pattern (%s)))", ix,
+		g.assumeDef(arr, fmt.Sprintf("(forall ((j %s)) (! (=> (and %s %s) (= (select %s %s) %s)) :pattern (%s)))", ix,
 			g.icmp("<=", g.idxLit(0), "j", true), g.icmp("<", "j", tlen, true), arr, g.iadd(app("s_len", s.S), "j"), elemAt("j"), elemAt("j")))
 	}
 	f.cur.set(key, app("store", e, pn, arr))
@@ -494,7 +505,7 @@ func (f *Frame) copyCall(c *ssa.CallCommon, args []Val, in ssa.Instruction) Val 
 		slen = app("s_len", s.S)
 	}
 	n := g.freshConst("copyn", g.idxSort())
-	g.assume(eq(n, ite(g.icmp("<", app("s_len", d.S), slen, true), app("s_len", d.S), slen)))
+	g.assumeDef(n, eq(n, ite(g.icmp("<", app("s_len", d.S), slen, true), app("s_len", d.S), slen)))
 	if !isLeafElem(et) {
 		g.note("copy on a slice of structs/arrays: havoc")
 		ms := &ModSet{Maps: map[string]bool{}}
@@ -517,7 +528,7 @@ func (f *Frame) copyCall(c *ssa.CallCommon, args []Val, in ssa.Instruction) Val 
 	}
 	doff := app("s_off", d.S)
 	inRange := and(g.icmp("<=", doff, "i", true), g.icmp("<", "i", g.iadd(doff, n), true))
-	g.assume(fmt.Sprintf("(forall ((i %s)) (! (= (select %s i) (ite %s %s (select %s i))) :pattern ((select %s i))))", ix,
+	g.assumeDef(arr, fmt.Sprintf("(forall ((i %s)) (! (= (select %s i) (ite %s %s (select %s i))) :pattern ((select %s i))))", ix,
 		arr, inRange, srcAt(g.isub("i", doff)), oldd, arr))
 	f.cur.set(key, app("store", e, app("s_arr", d.S), arr))
 	return Val{S: n, Sort: g.idxSort(), GT: tInt}
@@ -559,13 +570,13 @@ func (g *Gen) applyPure(fn *ssa.Function, fc *FuncContract, args []Val, reach st
 	env := &Env{g: g, bind: bind, results: []Val{r}, pkg: pkg, symHeap: &symHeap{names: map[string]string{}}}
 	for _, c := range fc.Clauses {
 		if c.Kind == "ensures" {
-			g.assume(env.trBool(c.E))
+			g.assumeDef(uf, env.trBool(c.E))
 		}
 	}
 	if len(env.symHeap.keys) > 0 {
 		panic(specError{"pure contract reads the heap: " + name})
 	}
-	g.assume(g.typeInv(r, ""))
+	g.assumeDef(uf, g.typeInv(r, ""))
 	if fc.Trusted {
 		g.Assumptions["trusted contract (assumed, body not verified): "+name+": "+clauseTexts(fc)] = true
 	}
